@@ -442,6 +442,42 @@ def rule_closure_inline(text, ctx, where):
     return text, n
 
 
+def rule_msg_to_string(text, ctx, where):
+    """`"literal".to_string()` -> `rt_msg()` (diagnostic message text dropped)"""
+    return re.subn(r'"(?:[^"\\]|\\.)*"\.to_string\(\)', "rt_msg()", text)
+
+
+def rule_for_consume(text, ctx, where):
+    """`for X in V {` (V a Vec taken by value, listed in ctx.consume) -> drain from the front, in order"""
+    n = 0
+    for v in getattr(ctx, "consume", []):
+        pat = re.compile(r"\bfor\s+([A-Za-z_]\w*)\s+in\s+" + re.escape(v) + r"\s*\{")
+        m = mask(text)
+        mt = pat.search(m)
+        if mt:
+            x = mt.group(1)
+            text = text[:mt.start()] + f"let mut __cv{n} = {v}; while __cv{n}.len() > 0 {{ let {x} = __cv{n}.remove(0);" + text[mt.end():]
+            n += 1
+    return text, n
+
+
+def rule_for_entries(text, ctx, where):
+    """`for (a, b) in M.iter() {` over a map -> loop over `M.entries()` (a Vec of (&K, &V) pairs in the map's iteration order,
+    which the shim leaves unspecified for hash maps)"""
+    n = 0
+    while True:
+        m = mask(text)
+        mt = re.search(r"\bfor\s+\(\s*([A-Za-z_]\w*)\s*,\s*([A-Za-z_]\w*)\s*\)\s+in\s+([A-Za-z_][\w\.]*)\.iter\(\)\s*\{", m)
+        if not mt:
+            break
+        a, b, mp = mt.group(1), mt.group(2), mt.group(3)
+        es, ek = f"__es{n}", f"__ek{n}"
+        text = (text[:mt.start()] + f"let {es} = {mp}.entries(); let mut {ek}: usize = 0; while {ek} < {es}.len() {{ let ({a}, {b}) = {es}[{ek}]; {ek} += 1;"
+                + text[mt.end():])
+        n += 1
+    return text, n
+
+
 def rule_assert_partial(text, ctx, where):
     """PARTIAL mode: `assert!(E);` / `debug_assert!(E);` -> `{ let __aN = E; proof { assume(__aN); } }`
     (E is still evaluated, with its effects; what follows is proved only for executions where the assertion held)"""
@@ -484,7 +520,7 @@ def rule_unreachable_partial(text, ctx, where):
     return text, n
 
 
-RULES = {"opt_map": rule_opt_map, "opt_or_else": rule_opt_or_else, "closure_inline": rule_closure_inline, "unreachable_partial": rule_unreachable_partial, "assert_partial": rule_assert_partial, "for_index": rule_for_index, "map_err_q": rule_map_err_q, "iter_any": rule_iter_any, "opt_map_or": rule_opt_map_or, "mutself": rule_mutself, "fmtmsg": rule_fmtmsg, "pubfields": rule_pubfields, "T": rule_T, "attrs": rule_attrs, "cell": rule_cell}
+RULES = {"msg_to_string": rule_msg_to_string, "for_consume": rule_for_consume, "for_entries": rule_for_entries, "opt_map": rule_opt_map, "opt_or_else": rule_opt_or_else, "closure_inline": rule_closure_inline, "unreachable_partial": rule_unreachable_partial, "assert_partial": rule_assert_partial, "for_index": rule_for_index, "map_err_q": rule_map_err_q, "iter_any": rule_iter_any, "opt_map_or": rule_opt_map_or, "mutself": rule_mutself, "fmtmsg": rule_fmtmsg, "pubfields": rule_pubfields, "T": rule_T, "attrs": rule_attrs, "cell": rule_cell}
 
 
 def apply_rules(text, rules, ctx, counts, where):
@@ -493,6 +529,12 @@ def apply_rules(text, rules, ctx, counts, where):
             k = text.count(r[1])
             text = text.replace(r[1], "")
             counts["strip " + r[1]] = counts.get("strip " + r[1], 0) + k
+            continue
+        if isinstance(r, tuple) and r[0] == "consume":
+            ctx.consume = list(r[1])
+            fn = rule_for_consume
+            text, n = fn(text, ctx, where)
+            counts["for_consume"] = counts.get("for_consume", 0) + n
             continue
         if isinstance(r, tuple) and r[0] == "cell":
             ctx.cell_fields = list(r[1])
